@@ -105,6 +105,7 @@ type writerModel struct {
 	noClobber bool
 	fo        map[string]interface{}
 	store     *recStore // nil = the library's filesystem backend
+	nilOpts   bool      // nil-valued options were passed too: what those mean is not stated, so this instance's own render / store / backend state is not asserted
 }
 
 type readerModel struct {
@@ -113,6 +114,7 @@ type readerModel struct {
 	fo          map[string]interface{}
 	store       *recStore   // nil = the library's filesystem backend
 	sniffer     *recSniffer // nil = the library's detection
+	nilOpts     bool
 }
 
 const minimalCDX15 = `{"bomFormat":"CycloneDX","specVersion":"1.5","version":1,"components":[{"bom-ref":"a","type":"library","name":"a"}]}`
@@ -156,9 +158,13 @@ func c18Property(t *rapid.T) {
 	var hist []string
 	logf := func(f string, a ...any) { hist = append(hist, fmt.Sprintf(f, a...)) }
 	history := func() string { return "\n    " + strings.Join(hist, "\n    ") }
+	// a per-call option set together with what the caller put into it (expectations come from that record, not from
+	// re-reading the set: whether a call may complete the set it is given is not stated)
 	type callOpt struct {
-		o  *writer.Options
-		fo interface{}
+		o      *writer.Options
+		fo     interface{}
+		format formats.Format
+		indent *int
 	}
 	var callOpts []callOpt
 	reusedCallOptions := false
@@ -178,19 +184,20 @@ func c18Property(t *rapid.T) {
 			if o.Format != m.format {
 				t.Fatalf("after %s: writer %d format is %q, its own configuration says %q%s", after, i, o.Format, m.format, history())
 			}
-			if o.RenderOptions == nil || o.RenderOptions.Indent != m.indent {
+			if !m.nilOpts && (o.RenderOptions == nil || o.RenderOptions.Indent != m.indent) {
 				t.Fatalf("after %s: writer %d render options are %+v, its own configuration says indent %d%s", after, i, o.RenderOptions, m.indent, history())
 			}
-			if o.SerializeOptions == nil || (m.serialize != nil && o.SerializeOptions != m.serialize) {
-				t.Fatalf("after %s: writer %d serialize options are not its own%s", after, i, history())
-			}
-			if o.StoreOptions == nil || o.StoreOptions.NoClobber != m.noClobber {
+			// (serialize / unserialize options are empty structs: two values cannot be told apart, nothing to assert)
+			if !m.nilOpts && (o.StoreOptions == nil || o.StoreOptions.NoClobber != m.noClobber) {
 				t.Fatalf("after %s: writer %d store options are %+v, its own configuration says NoClobber=%v%s", after, i, o.StoreOptions, m.noClobber, history())
 			}
 			for _, k := range foKeys {
 				if got := o.GetFormatOptions(k); got != m.fo[k] {
 					t.Fatalf("after %s: writer %d format options[%s] = %v, its own configuration says %v%s", after, i, k, got, m.fo[k], history())
 				}
+			}
+			if m.nilOpts {
+				continue
 			}
 			if w.Storage == nil || (m.store != nil && w.Storage != storage.StoreRetriever(m.store)) {
 				t.Fatalf("after %s: writer %d storage backend is %T, not the one its constructor was given%s", after, i, w.Storage, history())
@@ -203,7 +210,7 @@ func c18Property(t *rapid.T) {
 		for i := range writers {
 			for j := i + 1; j < len(writers); j++ {
 				a, b := writers[i].Options, writers[j].Options
-				if a == b || a.RenderOptions == b.RenderOptions || a.StoreOptions == b.StoreOptions {
+				if a == b || (a.RenderOptions != nil && a.RenderOptions == b.RenderOptions) || (a.StoreOptions != nil && a.StoreOptions == b.StoreOptions) {
 					t.Fatalf("after %s: writers %d and %d share an options object%s", after, i, j, history())
 				}
 			}
@@ -224,11 +231,13 @@ func c18Property(t *rapid.T) {
 			if o.Format != "" {
 				t.Fatalf("after %s: reader %d has format %q although no constructor option sets one%s", after, i, o.Format, history())
 			}
-			if o.UnserializeOptions == nil || (m.unserialize != nil && o.UnserializeOptions != m.unserialize) {
-				t.Fatalf("after %s: reader %d unserialize options are not its own%s", after, i, history())
+			if m.nilOpts {
+				continue
 			}
-			if o.RetrieveOptions != m.retrieve {
-				t.Fatalf("after %s: reader %d retrieve options are not its own%s", after, i, history())
+			// by value: whether an instance keeps the caller's object or a private copy is its choice
+			if (m.retrieve == nil && o.RetrieveOptions != nil && o.RetrieveOptions.BackendOptions != nil) ||
+				(m.retrieve != nil && (o.RetrieveOptions == nil || o.RetrieveOptions.BackendOptions != m.retrieve.BackendOptions)) {
+				t.Fatalf("after %s: reader %d retrieve options are %+v, its own configuration says %+v%s", after, i, o.RetrieveOptions, m.retrieve, history())
 			}
 			if r.Storage == nil || (m.store != nil && r.Storage != storage.StoreRetriever(m.store)) {
 				t.Fatalf("after %s: reader %d storage backend is %T, not the one its constructor was given%s", after, i, r.Storage, history())
@@ -290,6 +299,7 @@ func c18Property(t *rapid.T) {
 			if !plain && rapid.IntRange(0, 5).Draw(t, "nilopts") == 0 {
 				opts = append(opts, writer.WithRenderOptions(nil), writer.WithSerializeOptions(nil), writer.WithStoreOptions(nil), writer.WithStoreRetriever(nil))
 				desc = append(desc, "nil options")
+				m.nilOpts = true
 			}
 			writers = append(writers, writer.New(opts...))
 			wmodels = append(wmodels, m)
@@ -316,7 +326,7 @@ func c18Property(t *rapid.T) {
 				desc = append(desc, "WithUnserializeOptions")
 			}
 			if yes("retrieve?") {
-				m.retrieve = &storage.RetrieveOptions{}
+				m.retrieve = &storage.RetrieveOptions{BackendOptions: fmt.Sprintf("retrieve-options-of-reader-%d", len(readers))}
 				opts = append(opts, reader.WithRetrieveOptions(m.retrieve))
 				desc = append(desc, "WithRetrieveOptions")
 			}
@@ -340,6 +350,7 @@ func c18Property(t *rapid.T) {
 			if !plain && rapid.IntRange(0, 5).Draw(t, "nilopts") == 0 {
 				opts = append(opts, reader.WithUnserializeOptions(nil), reader.WithRetrieveOptions(nil), reader.WithStoreRetriever(nil), reader.WithSniffer(nil))
 				desc = append(desc, "nil options")
+				m.nilOpts = true
 			}
 			readers = append(readers, reader.New(opts...))
 			rmodels = append(rmodels, m)
@@ -436,49 +447,41 @@ func c18Property(t *rapid.T) {
 			i := rapid.IntRange(0, len(writers)-1).Draw(t, "w")
 			m := wmodels[i]
 			// a per-call option set is either fresh or one used in an earlier call (callers keep such objects around)
-			var o *writer.Options
-			var callFO interface{}
+			var co callOpt
 			if len(callOpts) > 0 && rapid.Bool().Draw(t, "reuse") {
-				k := rapid.IntRange(0, len(callOpts)-1).Draw(t, "which")
-				o, callFO = callOpts[k].o, callOpts[k].fo
+				co = callOpts[rapid.IntRange(0, len(callOpts)-1).Draw(t, "which")]
 				reusedCallOptions = true
 			} else {
-				o = &writer.Options{}
+				co.o = &writer.Options{}
 				if rapid.Bool().Draw(t, "format?") {
-					o.Format = rapid.SampledFrom([]formats.Format{fakeFormat, formats.CDX14JSON, formats.SPDX23JSON}).Draw(t, "format")
+					co.format = rapid.SampledFrom([]formats.Format{fakeFormat, formats.CDX14JSON, formats.SPDX23JSON}).Draw(t, "format")
+					co.o.Format = co.format
 				}
 				if rapid.Bool().Draw(t, "render?") {
-					o.RenderOptions = &native.RenderOptions{Indent: rapid.IntRange(0, 9).Draw(t, "indent")}
+					ind := rapid.IntRange(0, 9).Draw(t, "indent")
+					co.indent = &ind
+					co.o.RenderOptions = &native.RenderOptions{Indent: ind}
 				}
 				if rapid.Bool().Draw(t, "serialize?") {
-					o.SerializeOptions = &native.SerializeOptions{}
+					co.o.SerializeOptions = &native.SerializeOptions{}
 				}
 				if rapid.Bool().Draw(t, "fo?") {
-					callFO = "call-" + rapid.SampledFrom([]string{"p", "q"}).Draw(t, "foval")
-					o.SetFormatOptions(fakeSerKey, callFO)
+					co.fo = "call-" + rapid.SampledFrom([]string{"p", "q"}).Draw(t, "foval")
+					co.o.SetFormatOptions(fakeSerKey, co.fo)
 				}
 				if len(callOpts) < 3 {
-					callOpts = append(callOpts, callOpt{o: o, fo: callFO})
+					callOpts = append(callOpts, co)
 				}
 			}
-			oBefore := *o
-			var roBefore native.RenderOptions
-			if o.RenderOptions != nil {
-				roBefore = *o.RenderOptions
-			}
-			used := o.Format
+			o, callFO := co.o, co.fo
+			used := co.format
 			if used == "" {
 				used = m.format
 			}
 			var buf bytes.Buffer
 			calls := fs.calls
 			err := writers[i].WriteStreamWithOptions(doc, nopCloser{&buf}, o)
-			logf("writer %d.WriteStreamWithOptions(format=%q render=%+v fo=%v) -> err=%v", i, oBefore.Format, oBefore.RenderOptions, callFO, err)
-			// the option set of the call belongs to the caller: it must come back as it went in
-			if o.Format != oBefore.Format || o.RenderOptions != oBefore.RenderOptions || o.SerializeOptions != oBefore.SerializeOptions || o.StoreOptions != oBefore.StoreOptions ||
-				(o.RenderOptions != nil && *o.RenderOptions != roBefore) || o.GetFormatOptions(fakeSerKey) != callFO {
-				t.Fatalf("the call changed the option set it was given (format %q -> %q, render %v -> %v)%s", oBefore.Format, o.Format, oBefore.RenderOptions, o.RenderOptions, history())
-			}
+			logf("writer %d.WriteStreamWithOptions(format=%q indent=%v fo=%v) -> err=%v", i, co.format, co.indent, callFO, err)
 			switch {
 			case used == "":
 				if err == nil {
@@ -488,11 +491,13 @@ func c18Property(t *rapid.T) {
 				if err != nil || fs.calls != calls+1 {
 					t.Fatalf("the fake format was selected for this call but the fake driver was not used (err=%v)%s", err, history())
 				}
-				if o.RenderOptions != nil && (fs.renderOpts == nil || fs.renderOpts.Indent != o.RenderOptions.Indent) {
-					t.Fatalf("per-call render options %+v did not reach the driver (got %+v)%s", o.RenderOptions, fs.renderOpts, history())
+				if co.indent != nil && (fs.renderOpts == nil || fs.renderOpts.Indent != *co.indent) {
+					t.Fatalf("per-call render options (indent %d) did not reach the driver (got %+v)%s", *co.indent, fs.renderOpts, history())
 				}
-				if o.SerializeOptions != nil && fs.serializeOpts != o.SerializeOptions {
-					t.Fatalf("per-call serialize options did not reach the driver%s", history())
+				// without per-call render options the library default or the instance's own reach the driver — never
+				// what an earlier call on another instance left behind in a reused option set
+				if co.indent == nil && fs.renderOpts != nil && fs.renderOpts.Indent != 4 && fs.renderOpts.Indent != m.indent {
+					t.Fatalf("the call carried no render options, yet the driver received indent %d, which is neither the default nor writer %d's own (%d)%s", fs.renderOpts.Indent, i, m.indent, history())
 				}
 				// without per-call format options either nothing or the instance's own may reach the driver
 				if (callFO != nil && (fs.formatOptsS != callFO || fs.formatOptsR != callFO)) ||
@@ -602,12 +607,8 @@ func c18Property(t *rapid.T) {
 			var callSO *storage.StoreOptions
 			var err error
 			if withOpts {
-				callSO = &storage.StoreOptions{NoClobber: rapid.Bool().Draw(t, "callNoClobber")}
-				o := &writer.Options{StoreOptions: callSO}
-				err = writers[i].StoreWithOptions(doc, o)
-				if o.StoreOptions != callSO || o.Format != "" || o.RenderOptions != nil || o.SerializeOptions != nil {
-					t.Fatalf("writer %d.StoreWithOptions changed the option set it was given%s", i, history())
-				}
+				callSO = &storage.StoreOptions{NoClobber: rapid.Bool().Draw(t, "callNoClobber"), BackendOptions: fmt.Sprintf("store-options-of-call-%d", len(hist))}
+				err = writers[i].StoreWithOptions(doc, &writer.Options{StoreOptions: callSO})
 			} else {
 				err = writers[i].Store(doc)
 			}
@@ -625,8 +626,9 @@ func c18Property(t *rapid.T) {
 				}
 			}
 			if withOpts {
-				if m.store.lastStore != callSO {
-					t.Fatalf("writer %d.StoreWithOptions: the backend did not receive the store options given to this call%s", i, history())
+				// by value: the backend may be handed a copy
+				if got := m.store.lastStore; got == nil || got.NoClobber != callSO.NoClobber || got.BackendOptions != callSO.BackendOptions {
+					t.Fatalf("writer %d.StoreWithOptions: the backend received %+v, not the store options given to this call (%+v)%s", i, got, callSO, history())
 				}
 			} else if got := m.store.lastStore; got != nil && got.NoClobber != m.noClobber && got.NoClobber {
 				// without per-call options the backend receives the library defaults or the instance's own options
@@ -658,7 +660,7 @@ func c18Property(t *rapid.T) {
 			var d *sbom.Document
 			var err error
 			if withOpts {
-				callRO = &storage.RetrieveOptions{}
+				callRO = &storage.RetrieveOptions{BackendOptions: fmt.Sprintf("retrieve-options-of-call-%d", len(hist))}
 				d, err = readers[i].RetrieveWithOptions("urn:x", &reader.Options{RetrieveOptions: callRO})
 			} else {
 				d, err = readers[i].Retrieve("urn:x")
@@ -676,11 +678,12 @@ func c18Property(t *rapid.T) {
 					t.Fatalf("reader %d retrieved a document: backend %s saw %d calls, expected %d%s", i, st.name, st.retrieves-n, want-n, history())
 				}
 			}
-			if withOpts && m.store.lastRetr != callRO {
-				t.Fatalf("reader %d.RetrieveWithOptions: the backend did not receive the retrieve options given to this call%s", i, history())
+			if got := m.store.lastRetr; withOpts && (got == nil || got.BackendOptions != callRO.BackendOptions) {
+				t.Fatalf("reader %d.RetrieveWithOptions: the backend received %+v, not the retrieve options given to this call%s", i, got, history())
 			}
-			if !withOpts && m.store.lastRetr != nil && m.store.lastRetr != m.retrieve {
-				t.Fatalf("reader %d.Retrieve: the backend received retrieve options that are neither the library default (none) nor this reader's own%s", i, history())
+			// without per-call options: the library default (nothing, or an empty set) or this reader's own
+			if got := m.store.lastRetr; !withOpts && got != nil && got.BackendOptions != nil && (m.retrieve == nil || got.BackendOptions != m.retrieve.BackendOptions) {
+				t.Fatalf("reader %d.Retrieve: the backend received retrieve options %+v that are neither the library default nor this reader's own%s", i, got, history())
 			}
 			hx.Class("retrieve_through_instance_backend")
 			checkAll(hist[len(hist)-1])
